@@ -261,6 +261,43 @@ func stress(args map[string]string) error {
 	defer e.close()
 	e.sched = nil
 	rng := rand.New(rand.NewSource(seed))
+	// leadership bounces back: A allocates a few ids, B takes over and allocates, A is re-elected while its process still
+	// holds the unused part of its old window, re-bases (server.campaignLeader) and allocates past its old bound
+	bounce := 0
+	for _, na := range []int{1, 1 + rng.Intn(998), 999} {
+		for _, nb := range []int{1, 1000 + rng.Intn(50)} {
+			bounce++
+			root := fmt.Sprintf("/vf/idbounce/%d/%d", seed, bounce)
+			e.setLeader(root, "m1")
+			w.Reset(trace.Ev{"beh": 1000 + bounce, "stored": 0, "leader": "m1", "mode": "stress"})
+			var a, b id.Allocator
+			var an, bn string
+			for i := range member {
+				if member[i] == "m1" && a == nil {
+					a, an = id.NewAllocator(e.plain, root, member[i]), i
+				} else if member[i] == "m2" && b == nil {
+					b, bn = id.NewAllocator(e.plain, root, member[i]), i
+				}
+			}
+			run := func(al id.Allocator, name string, n int) {
+				for k := 0; k < n; k++ {
+					v, err := al.Alloc()
+					ev := trace.Ev{"ev": "A", "i": name, "g": 1, "t": 0, "s": w.Seq(), "e": w.Seq(), "stored": e.stored(root), "k": key(name, 1, 0), "err": err != nil}
+					if err == nil {
+						ev["id"] = int(v)
+					}
+					w.Emit(ev)
+				}
+			}
+			run(a, an, na)
+			e.setLeader(root, "m2")
+			_ = b.Rebase()
+			run(b, bn, nb)
+			e.setLeader(root, "m1")
+			_ = a.Rebase()
+			run(a, an, 1100)
+		}
+	}
 	for r := 0; r < rounds; r++ {
 		root := fmt.Sprintf("/vf/idstress/%d", r)
 		e.setLeader(root, "m1")
@@ -324,7 +361,17 @@ func stress(args map[string]string) error {
 					gen[i]++
 					mu.Unlock()
 				} else {
-					e.setLeader(root, ms[lr.Intn(len(ms))])
+					m := ms[lr.Intn(len(ms))]
+					e.setLeader(root, m)
+					// what a member does when it wins the election (server.campaignLeader): re-base its allocator, which may
+					// still hold an unused part of a window from an earlier term
+					mu.Lock()
+					for i, a := range alloc {
+						if member[i] == m && lr.Intn(2) == 0 {
+							go a.Rebase()
+						}
+					}
+					mu.Unlock()
 				}
 			}
 		}()
